@@ -4,7 +4,7 @@ use core::{cmp, fmt};
 use super::{Error, Result};
 use crate::phy::ChecksumCapabilities;
 use crate::wire::ip::checksum;
-use crate::wire::{Ipv4Packet, Ipv4Repr};
+use crate::wire::{IPV4_HEADER_LEN, Ipv4Packet, Ipv4Repr};
 
 enum_with_unknown! {
     /// Internet protocol control message type.
@@ -389,6 +389,22 @@ pub enum Repr<'a> {
     },
 }
 
+/// View the IPv4 header of the datagram quoted in an error message.
+///
+/// The quote is the header and as much of the datagram as the sender chose to return (RFC 792: at
+/// least 64 bits of it), so only the header has to be complete, not the whole `total_len`.
+fn quoted_ipv4_header(data: &[u8]) -> Result<Ipv4Packet<&[u8]>> {
+    if data.len() < IPV4_HEADER_LEN {
+        return Err(Error);
+    }
+    let ip_packet = Ipv4Packet::new_unchecked(data);
+    let header_len = ip_packet.header_len() as usize;
+    if header_len < IPV4_HEADER_LEN || data.len() < header_len {
+        return Err(Error);
+    }
+    Ok(ip_packet)
+}
+
 impl<'a> Repr<'a> {
     /// Parse an Internet Control Message Protocol version 4 packet and return
     /// a high-level representation.
@@ -420,7 +436,7 @@ impl<'a> Repr<'a> {
             }),
 
             (Message::DstUnreachable, code) => {
-                let ip_packet = Ipv4Packet::new_checked(packet.data())?;
+                let ip_packet = quoted_ipv4_header(packet.data())?;
 
                 let payload = &packet.data()[ip_packet.header_len() as usize..];
                 // RFC 792 requires exactly eight bytes to be returned.
@@ -443,7 +459,7 @@ impl<'a> Repr<'a> {
             }
 
             (Message::TimeExceeded, code) => {
-                let ip_packet = Ipv4Packet::new_checked(packet.data())?;
+                let ip_packet = quoted_ipv4_header(packet.data())?;
 
                 let payload = &packet.data()[ip_packet.header_len() as usize..];
                 // RFC 792 requires exactly eight bytes to be returned.
